@@ -35,6 +35,11 @@ impl Ctl {
         let k = self.calls.fetch_add(1, Ordering::SeqCst);
         if k == self.fail_a.load(Ordering::SeqCst) || k == self.fail_b.load(Ordering::SeqCst) {
             self.fired.fetch_add(1, Ordering::SeqCst);
+            if std::env::var("VERIF_FAULT_BT").is_ok() {
+                let bt = std::backtrace::Backtrace::force_capture().to_string();
+                let frames: Vec<&str> = bt.lines().filter(|l| l.contains("cfb::") && !l.contains("cfb_verif_harness")).map(|l| l.trim()).collect();
+                println!("FAULT-SITE call {}: {}", k, frames.join(" <- "));
+            }
             return Err(io::Error::other("injected fault"));
         }
         Ok(())
@@ -135,12 +140,17 @@ fn read_workload(image: &[u8], streams: &[(String, Vec<u8>)], ctl: Arc<Ctl>, han
         script.push(("read", 100));
         for (op, arg) in script {
             let mut tries = 0;
+            // a `read` step collects `arg` bytes (or up to the end) over as many calls as it takes,
+            // so that its result does not depend on where the window happens to be
+            let mut got = 0usize;
             loop {
                 tries += 1;
                 let before_fired = ctl.fired.load(Ordering::SeqCst);
+                let mut partial = false;
+                let req = if op == "read" { arg as usize - got } else { 0 };
                 let res: Result<String, String> = match op {
                     "read" => {
-                        let mut buf = vec![0u8; arg as usize];
+                        let mut buf = vec![0u8; req];
                         match s.read(&mut buf) {
                             Ok(k) => {
                                 if buf[..k] != content[cursor.min(content.len())..(cursor + k).min(content.len())] || (k == 0 && cursor < content.len()) {
@@ -148,7 +158,9 @@ fn read_workload(image: &[u8], streams: &[(String, Vec<u8>)], ctl: Arc<Ctl>, han
                                         cursor + buf[..k].iter().zip(content[cursor.min(content.len())..].iter()).position(|(a, b)| a != b).unwrap_or(0)));
                                 }
                                 cursor += k;
-                                Ok(format!("read {}", k))
+                                got += k;
+                                partial = k > 0 && got < arg as usize;
+                                Ok(format!("read {}", got))
                             }
                             Err(e) => Err(err_kind(&e).to_string()),
                         }
@@ -167,7 +179,7 @@ fn read_workload(image: &[u8], streams: &[(String, Vec<u8>)], ctl: Arc<Ctl>, han
                     if let Some(tr) = trace.as_mut() {
                         let st = s.verif_state();
                         let line = match op {
-                            "read" => format!("read {}", arg),
+                            "read" => format!("read {}", req),
                             "seek" => format!("seek start {}", arg),
                             _ => format!("seek end {}", arg),
                         };
@@ -178,6 +190,10 @@ fn read_workload(image: &[u8], streams: &[(String, Vec<u8>)], ctl: Arc<Ctl>, han
                         tr.push(format!("{}{} => {} | {} {} {} {} {} {}", line, if fired { " F refill" } else { "" }, out, st.1, st.2, st.3, st.4, st.5, st.7 as u8));
                     }
                 }
+                if partial {
+                    tries -= 1;
+                    continue;
+                }
                 match res {
                     Ok(line) => {
                         t.push(format!("{} {}", path, line));
@@ -187,6 +203,57 @@ fn read_workload(image: &[u8], streams: &[(String, Vec<u8>)], ctl: Arc<Ctl>, han
                         t.push(format!("{} {} err {}", path, op, k));
                         if !fired {
                             bad.push(format!("{} on {} failed ({}) although no fault was injected into it", op, path, k));
+                        }
+                        // look back: after the failed call the same handle must still serve the true
+                        // bytes of what it had buffered before (not recorded in the transcript)
+                        if op == "read" && cursor > 0 {
+                            let back = cursor.saturating_sub(1024);
+                            let mut probe = |s: &mut cfb::Stream<FaultyFile>, what: &str, pos: usize, n: usize| -> Option<Vec<u8>> {
+                                let r = if n == 0 {
+                                    s.seek(SeekFrom::Start(pos as u64)).map(|_| Vec::new())
+                                } else {
+                                    let mut b = vec![0u8; n];
+                                    s.read(&mut b).map(|k| b[..k].to_vec())
+                                };
+                                if traced {
+                                    if let Some(tr) = trace.as_mut() {
+                                        let st = s.verif_state();
+                                        // a probe that itself meets the second fault is left out of the trace comparison
+                                        if r.is_ok() {
+                                            tr.push(format!("{} => ok | {} {} {} {} {} {}", what, st.1, st.2, st.3, st.4, st.5, st.7 as u8));
+                                        } else {
+                                            tr.push("STOP".to_string());
+                                        }
+                                    }
+                                }
+                                r.ok()
+                            };
+                            if probe(&mut s, &format!("seek start {}", back), back, 0).is_some() {
+                                let mut at = back;
+                                while at < cursor {
+                                    let want = (cursor - at).min(400);
+                                    match probe(&mut s, &format!("read {}", want), at, want) {
+                                        Some(got) if !got.is_empty() => {
+                                            if got[..] != content[at..at + got.len()] {
+                                                bad.push(format!("after a failed read of {} at position {}, seeking back to {} and reading returned bytes that differ from the stream's content (first difference at byte {})", path, cursor, back,
+                                                    at + got.iter().zip(content[at..].iter()).position(|(a, b)| a != b).unwrap_or(0)));
+                                                break;
+                                            }
+                                            at += got.len();
+                                        }
+                                        Some(_) => {
+                                            bad.push(format!("after a failed read of {} at position {}, reading at {} returned nothing before the end", path, cursor, at));
+                                            break;
+                                        }
+                                        None => break,
+                                    }
+                                }
+                            }
+                            for _ in 0..3 {
+                                if probe(&mut s, &format!("seek start {}", cursor), cursor, 0).is_some() {
+                                    break;
+                                }
+                            }
                         }
                         if tries >= 4 {
                             break;
@@ -247,7 +314,17 @@ pub fn read_campaign(seed: u64, pairs: u64, ops_path: &str, impl_path: &str) {
             if !tr.iter().any(|l| l.contains(" F ")) {
                 continue;
             }
+            let mut skip = false;
             for line in tr {
+                if line == "STOP" {
+                    skip = true;
+                }
+                if line.starts_with("new ") {
+                    skip = false;
+                }
+                if skip {
+                    continue;
+                }
                 match line.split_once(" => ") {
                     Some((op, res)) => {
                         writeln!(ops_out, "{}", op).unwrap();
@@ -281,10 +358,12 @@ struct WriteRun {
     transcript: Vec<String>,
     bad: Vec<String>,
     trace: Vec<String>,
+    /// underlying-call counter at the start and end of the handle script
+    handle_phase: (u64, u64),
 }
 
 fn write_workload(version: Version, ctl: Arc<Ctl>) -> WriteRun {
-    let mut run = WriteRun { transcript: vec![], bad: vec![], trace: vec![] };
+    let mut run = WriteRun { transcript: vec![], bad: vec![], trace: vec![], handle_phase: (0, 0) };
     let fired = |c: &Ctl| c.fired.load(Ordering::SeqCst);
     // --- create (retried from scratch) ---
     let mut comp = None;
@@ -348,6 +427,8 @@ fn write_workload(version: Version, ctl: Arc<Ctl>) -> WriteRun {
     call!("create_storage /a", comp.create_storage("/a"));
     // --- the traced handle ---
     if let Some(mut s) = call!("create_stream /a/s1", comp.create_stream("/a/s1")) {
+        let only_handle_failures = !any_fault_so_far(&ctl);
+        run.handle_phase.0 = ctl.calls.load(Ordering::SeqCst);
         let mut spec: Vec<u8> = Vec::new();
         let mut cursor = 0usize;
         run.trace.push(format!("new {} {} -", if version == Version::V3 { 3 } else { 4 }, 1 << 20));
@@ -417,6 +498,18 @@ fn write_workload(version: Version, ctl: Arc<Ctl>) -> WriteRun {
                                 if spec_valid && (!ok || v != spec) {
                                     run.bad.push(format!("flush returned Ok but a fresh handle reads {} bytes (expected {}), first difference at {:?}", v.len(), spec.len(), v.iter().zip(spec.iter()).position(|(a, b)| a != b)));
                                 }
+                                // "is in the compound file": the same through the bytes alone, as long as
+                                // only handle writes/flushes have failed so far (a failed structural call or
+                                // set_len may legitimately leave the file half-updated)
+                                if spec_valid && only_handle_failures {
+                                    let bytes = _shared.as_ref().unwrap().snapshot();
+                                    let mut w = Vec::new();
+                                    let r = CompoundFile::open(std::io::Cursor::new(bytes)).and_then(|mut c| c.open_stream("/a/s1").and_then(|mut f| f.read_to_end(&mut w)));
+                                    if r.is_err() || w != spec {
+                                        run.bad.push(format!("flush returned Ok but the file's bytes, reopened, give {} for the stream (expected {} bytes), first difference at {:?}",
+                                            match &r { Ok(_) => format!("{} bytes", w.len()), Err(e) => format!("error {}", err_kind(e)) }, spec.len(), w.iter().zip(spec.iter()).position(|(a, b)| a != b)));
+                                    }
+                                }
                             }
                         }
                         run.transcript.push(format!("h {} ok", op));
@@ -451,6 +544,7 @@ fn write_workload(version: Version, ctl: Arc<Ctl>) -> WriteRun {
         }
         let _ = s.flush();
         drop(s);
+        run.handle_phase.1 = ctl.calls.load(Ordering::SeqCst);
     }
     // --- grow the directory, remove, recreate ---
     for i in 0..12 {
@@ -512,13 +606,16 @@ pub fn write_campaign(seed: u64, max_runs: u64, ops_path: &str, impl_path: &str)
             }
         };
         keep(&r0.trace);
-        // every position when affordable, else a stride through all of them plus random ones
+        // every position when affordable; else every position inside the handle script (where a
+        // failed flush is retried and judged for durability), a stride through the rest, and random ones
         let positions: Vec<u64> = if n <= max_runs {
             (0..n).collect()
         } else {
+            let mut v: Vec<u64> = (r0.handle_phase.0..r0.handle_phase.1).collect();
             let stride = (n / (max_runs * 2 / 3).max(1)).max(1);
-            let mut v: Vec<u64> = (0..n).step_by(stride as usize).collect();
-            while (v.len() as u64) < max_runs {
+            v.extend((0..n).step_by(stride as usize).filter(|k| *k < r0.handle_phase.0 || *k >= r0.handle_phase.1));
+            let target = v.len() as u64 + max_runs / 3;
+            while (v.len() as u64) < target {
                 v.push(rng.below(n));
             }
             v
